@@ -2,7 +2,7 @@
 # verify_seeded.sh <property> <n>: confirm a candidate change produced by a sub-agent in its
 # scratch worktree /tmp/wt-<property>: (1) unmodified: demo passes; (2) patched: the crate's
 # unit tests pass and the demo fails. Prints one line; leaves the worktree clean.
-p=$1; n=$2; wt=/tmp/wt-$p; d=/tmp/mut-$p/$n
+p=$1; n=$2; r="${ROUND:-}"; wt=/tmp/wt$r-$p; d=/tmp/mut$r-$p/$n
 cd $wt || exit 2
 git checkout -q -- . ; mkdir -p tests; cp $d/demo.rs tests/demo.rs
 base=$(cargo test --offline --test demo 2>&1 | grep -E "^test result" | tail -1)
